@@ -71,7 +71,22 @@ def build(provider, cfg, sched, start=0, qsize_arg=None):
         "data_config": {"preprocessing": {"scale": 1.0, "is_rgb": False, "max_height": None, "max_width": None}},
     })
     meta = {}
-    if provider == "VideoReader":
+    if provider == "VideoReader" and cfg.get("real"):
+        # the repository's asset video through real decoding (sleap-io / imageio-ffmpeg), expectations from a second,
+        # independently opened Video object
+        import os
+        import sleap_io as sio
+        from harness import shim
+        from harness.fakes import RealVideo
+        fn = os.path.join(shim.REPO, "tests/assets/centered_pair_small.mp4")
+        ref = sio.load_video(fn)
+        video = RealVideo(sio.load_video(fn), fail_idx=(start + fail - 1) if fail else None, sched=sched)
+        meta["expect"] = [dict(frame_idx=start + p - 1, video_idx=0, size=[int(ref.shape[1]), int(ref.shape[2])], pix=int(ref[start + p - 1].max()))
+                          for p in range(1, n + 1)]
+        pos_of = lambda v, f: f - start + 1
+        loader = ("load_video", lambda fn_, **kw: video)
+        kw = dict(video_start_idx=start, video_end_idx=start + n)
+    elif provider == "VideoReader":
         total = start + n + 2
         video = FakeVideo(total, 6, 10, 1, fail_idx=(start + fail - 1) if fail else None, sched=sched)
         meta["expect"] = [dict(frame_idx=start + p - 1, video_idx=0, size=[6, 10], pix=((start + p - 1) % 251) + 1) for p in range(1, n + 1)]
@@ -425,6 +440,10 @@ def run(tier, seed):
         cfg = dict(n=n, cap=rng.randint(1, 8), b=rng.randint(1, 8), fail=(rng.randint(1, n) if n and rng.random() < 0.35 else 0))
         pv = "VideoReader" if i % 2 == 0 else "LabelsReader"
         start = rng.randint(0, 6)
+        if i % 10 == 4:               # the repository's asset video through real decoding instead of FakeVideo
+            cfg["n"] = min(cfg["n"], 12)
+            cfg["fail"] = min(cfg["fail"], cfg["n"])
+            cfg["real"] = True
         t = free_run(pv, cfg, seed * 100003 + i, start)
         t["id"] = i
         t["provider"] = pv
@@ -434,8 +453,9 @@ def run(tier, seed):
             res.violation(dict(where=pv, kind="free_run", clause="queue_capacity"), "queue_capacity", t, "maxsize=%r" % t["maxsize"])
         if not t["meta_ok"]:
             res.violation(dict(where=pv, kind="free_run", clause="record_metadata"), "record_metadata", t)
-    j = judge("Trace_FrameStream", [dict(id=t["id"], cfg=t["cfg"], ev=t["ev"]) for t in traces], cfg_text=TRACE_CFG, per_shard_min=50)
+    j = judge("Trace_FrameStream", [dict(id=t["id"], cfg={k: v for k, v in t["cfg"].items() if k != "real"}, ev=t["ev"]) for t in traces], cfg_text=TRACE_CFG, per_shard_min=50)
     res.add_judge("Trace_FrameStream", j, "free-running reader/consumer threads, n<=40, cap<=8, b<=8")
+    res.clause("free_runs_on_the_real_video_file", sum(1 for t in traces if t["cfg"].get("real")))
     byid = {t["id"]: t for t in traces}
     for cid, clause in j["rejected"]:
         t = byid[int(cid)]
@@ -448,7 +468,7 @@ def run(tier, seed):
         rule="forced: maximal paths of TLC's dumped state graph (all %d when thorough, <=%d per configuration when quick) replayed on the real threads, alternating VideoReader/LabelsReader; free: random configurations. Non-trivial = at least one frame (forced) / two frames (free), distinct by (configuration, schedule or event sequence)" % (total_paths, 40),
         faults_injected=sum(1 for t in traces if t["cfg"]["fail"]) + sum(1 for i, p in jobs if g.states[i]["cfg"]["fail"]))
     res.assumptions += ["thread steps between hook points are atomic w.r.t. the modelled state (queue ops are under queue.Queue.mutex)",
-                        "real video decoding replaced by FakeVideo/FakeLabels; make_pipeline, from_filename, Queue construction, run(), _predict_generator are the real code"]
+                        "video decoding replaced by FakeVideo/FakeLabels except in a tenth of the free VideoReader runs, which decode the repository's asset video; make_pipeline, from_filename, Queue construction, run(), _predict_generator are the real code"]
     return res
 
 
@@ -473,7 +493,7 @@ def replay(rp, seed):
     else:
         t = free_run(c["provider"], c["cfg"], seed, c.get("start", 0))
         t["id"] = 0
-        j = judge("Trace_FrameStream", [dict(id=0, cfg=t["cfg"], ev=t["ev"])], cfg_text=TRACE_CFG, shards=1)
+        j = judge("Trace_FrameStream", [dict(id=0, cfg={k: v for k, v in t["cfg"].items() if k != "real"}, ev=t["ev"])], cfg_text=TRACE_CFG, shards=1)
         for cid, clause in j["rejected"]:
             res.violation(rp["key"], clause, t)
     return res
